@@ -416,14 +416,22 @@ func (b *c12Bus) Publish(topic string, ev events.Event) {
 		}
 	case events.TopicSessionProgrammed:
 		b.log.add("PROG")
+	case events.TopicComponentReady:
+		b.log.add("RDY")
 	}
 }
-func (b *c12Bus) Subscribe(string, events.Handler) events.Subscription { return c12Sub{} }
-func (b *c12Bus) SubscribeAll(events.Handler) events.Subscription      { return c12Sub{} }
-func (b *c12Bus) Stats() events.Stats                                  { return events.Stats{} }
-func (b *c12Bus) SetDebugTopics([]string)                              {}
-func (b *c12Bus) DebugTopics() []string                                { return nil }
-func (b *c12Bus) Close() error                                         { return nil }
+
+// a subscription is the component starting to serve events: logged, so that its position relative to the restore
+// is observable
+func (b *c12Bus) Subscribe(string, events.Handler) events.Subscription {
+	b.log.add("SUB")
+	return c12Sub{}
+}
+func (b *c12Bus) SubscribeAll(events.Handler) events.Subscription { return c12Sub{} }
+func (b *c12Bus) Stats() events.Stats                             { return events.Stats{} }
+func (b *c12Bus) SetDebugTopics([]string)                         {}
+func (b *c12Bus) DebugTopics() []string                           { return nil }
+func (b *c12Bus) Close() error                                    { return nil }
 
 type c12Sub struct{}
 
@@ -607,7 +615,12 @@ func c12SessID(i int) string { return fmt.Sprintf("s%03d", i) }
 type c12Proto interface {
 	// newComponent builds a fresh component instance on the store handle (registry already re-initialised)
 	newComponent(h *c12Handle)
+	// restore runs the component's real Start (restore, then subscriptions, packet consumers, Ready)
 	restore()
+	// stop: harness clean-up of an incarnation that is dead (cancels its context, stops its timers)
+	stop()
+	// pktTaken: closed when the packet that was waiting on the component's packet channel before Start was taken
+	pktTaken() chan struct{}
 	// create builds the in-memory session and registers it as the bring-up code would; addresses already chosen
 	create(n c12New, v4 net.IP, v6 net.IP, pd *net.IPNet, t0 time.Time, swif uint32) bool
 	live(i int) bool
@@ -955,10 +968,11 @@ func (e *c12Env) crash(preserved bool, fail int, pre string, dying chan string) 
 	allocator.InitGlobalRegistry(v4, v6)
 	e.asc = true
 	h := &c12Handle{f: e.fake, epoch: e.fake.epoch}
+	e.p.stop()
 	e.p.newComponent(h)
 	e.log.take()
 	r := e.runOp("", func() { e.p.restore() })
-	lg := e.log.take()
+	lg, start := e.startOrder()
 	e.sb.failAdd = -1
 	// asynchronous checkpoints issued by the restore path: one ticket per restored-session event, in order
 	for _, tok := range strings.Split(lg, ",") {
@@ -975,7 +989,43 @@ func (e *c12Env) crash(preserved bool, fail int, pre string, dying chan string) 
 			lg = pre + "," + lg
 		}
 	}
-	return "crash" + r + " " + lg + " live=" + e.p.dumpLive(e.kpd) + " store=" + e.dumpStore()
+	return "crash" + r + " " + lg + " start=" + start + " live=" + e.p.dumpLive(e.kpd) + " store=" + e.dumpStore()
+}
+
+// startOrder: after Start returned.  A packet was waiting on the component's packet channel since before Start; it is
+// taken by the packet consumer Start launches (handshake, no sleep).  The restore's log tokens must all precede the
+// first subscription, the Ready event and the packet hand-off: the component must not serve anything before the
+// restore has finished.  Returns the log without the start tokens and ok | early | nopkt.
+func (e *c12Env) startOrder() (string, string) {
+	res := "ok"
+	select {
+	case <-e.p.pktTaken():
+	case <-time.After(5 * time.Second):
+		res = "nopkt"
+	}
+	e.log.mu.Lock()
+	toks := e.log.l
+	e.log.l = nil
+	e.log.mu.Unlock()
+	keep := []string{}
+	lastRestore, firstServe := -1, -1
+	for i, t := range toks {
+		if t == "SUB" || t == "RDY" || t == "PKT" {
+			if firstServe < 0 {
+				firstServe = i
+			}
+			continue
+		}
+		lastRestore = i
+		keep = append(keep, t)
+	}
+	if firstServe >= 0 && firstServe < lastRestore {
+		res = "early"
+	}
+	if len(keep) == 0 {
+		return "-", res
+	}
+	return strings.Join(keep, ","), res
 }
 
 func (e *c12Env) dumpStore() string {
@@ -1376,6 +1426,8 @@ func c12Run(t *testing.T, mk func(e *c12Env) c12Proto, dpPrefix string, ns strin
 			allocator.InitGlobalRegistry(v4, v6)
 			e.p = mk(e)
 			e.p.newComponent(&c12Handle{f: e.fake, epoch: 0})
+			e.p.restore() // the first incarnation starts on an empty store
+			e.startOrder()
 			r := e.runCase(f[4:])
 			// leave no parked goroutine behind
 			e.fake.mu.Lock()
@@ -1386,6 +1438,7 @@ func c12Run(t *testing.T, mk func(e *c12Env) c12Proto, dpPrefix string, ns strin
 			for _, p := range old {
 				e.fake.complete(p, false)
 			}
+			e.p.stop()
 			res <- r
 		}()
 		select {
